@@ -495,6 +495,10 @@ func TestRegexType(t *testing.T) {
 				// is no printable ASCII one
 				{`(?m)^a$\W^\d\B\pL+`, "a\n1b", "a 1b", "a\n1", "a\nb"}, {`\d\B\pL\b\PL`, "1a ", "1a", "1 a", "a1 "},
 				{`a\b[\w\t]\bb`, "a\tb", "aab", "ab", "a b"}, {`\d\b[0-9\x{b0}]\B$`, "1\u00b0", "11", "1", "\u00b01"},
+				// many classes that all need the same kind of character (more combinations than a search
+				// over the classes one by one tries)
+				{`(?s)a\B.\B.\B.\B.\B.\B.\B.\B.\Ba`, "abbbbbbbba", "a-bbbbbbba", "aa", "abbbbbbbb"},
+				{`a\B[^b]\B[^b]\B[^b]\B[^b]\B[^b]\B[^b]\B[^b]\B[^b]\B[^b]\B[^b]\Ba`, "acccccccccca", "abbbbbbbbbba", "a c c c c c a", "aa"},
 				{`[\x{D000}-\x{E000}]{6}`, "\ud000\ud001\ud002\ud003\ud004\ud005", "abcdef", "", "\ud000"},
 			}).Draw(t, "curatedPattern")
 			c = RegexCase{Pattern: cur[0], Tail: tail, Probes: cur[1:]}
